@@ -104,7 +104,64 @@ def worker(shard):
                     'alphabet': list(BOUNDARY)}, cap=1)
     elif kind == 'odd':
         _odd(mido, acc)
+    elif kind == 'sysexlen':
+        _sysex_lengths(mido, acc, shard[1])
     return acc
+
+
+SYSEX_LENGTHS = tuple(range(0, 42)) + (47, 48, 49, 63, 64, 65, 127, 128, 129,
+                                        255, 256, 257, 1000, 1024, 4099)
+SYSEX_BAD_INT = (0x80, 0xF7, 0xF0, 0xF8, 0xFF, 256, -1, 1 << 64)
+SYSEX_BAD_OTHER = (1.0, '1', None, b'\x01', (1,))
+
+
+def _sysex_lengths(mido, acc, n):
+    """Sysex messages with n data bytes: the well-formed one is accepted, and
+    one bad item (status byte, out of byte range, non-integer) at any position
+    makes it rejected - for every position when n <= 130, else near both ends
+    and around every multiple of 8/64/256 (bulk checks live there)."""
+    good = [0xF0] + [(i * 7) & 0x7F for i in range(n)] + [0xF7]
+    for form, conv in (('list', list), ('tuple', tuple), ('bytes', bytes),
+                       ('bytearray', bytearray)):
+        _one(mido, acc, good, conv(good), form + '-sysexlen')
+    if n <= 130:
+        positions = range(1, n + 2)
+    else:
+        positions = sorted({p for p in range(1, n + 2)
+                            if p <= 17 or p >= n - 17
+                            or p % 64 in (0, 1, 63) or (p - 1) % 256 in (0, 1, 255)})
+    for pos in positions:
+        for bad in SYSEX_BAD_INT:
+            if pos == n + 1 and bad == 0xF7:
+                continue
+            seq = list(good)
+            seq[pos] = bad
+            acc.evals += 1
+            acc.nontrivial += 1
+            r = judge(mido, seq, seq, 'list-sysexlen')
+            if r is None and 0 <= bad <= 255:
+                r = judge(mido, seq, bytes(seq), 'bytes-sysexlen')
+            if r is None:
+                r = judge(mido, seq, tuple(seq), 'tuple-sysexlen')
+            if r is not None:
+                acc.violation(r[0], r[1] + f' (bad item at {pos} of {n + 2})',
+                              {'kind': 'seq', 'seq': seq, 'form': 'list'})
+        for bad in SYSEX_BAD_OTHER:
+            arg = list(good)
+            arg[pos] = bad
+            acc.evals += 1
+            acc.nontrivial += 1
+            r = judge(mido, None, arg, 'list-sysexlen-nonint',
+                      allow_type_error=True)
+            if r is not None:
+                acc.violation(r[0], r[1] + f' (bad item at {pos} of {n + 2})',
+                              {'kind': 'sysexlen', 'n': n, 'pos': pos,
+                               'bad': repr(bad)})
+    # an extra byte after the end, a missing end
+    for seq in (good + [0], good + [0xF7], good[:-1], good[:-1] + [0x7F]):
+        _one(mido, acc, seq, seq, 'list-sysexlen')
+    acc.sample({'sysex_data_bytes': n, 'bad_items': [repr(b) for b in
+               SYSEX_BAD_INT + SYSEX_BAD_OTHER]}, cap=1)
 
 
 def _one(mido, acc, seq, arg, form):
@@ -265,6 +322,7 @@ def run():
     # they run a second time in a worker whose state is warm.
     run_shards(worker, [('odd',)], rep, procs=1)
     shards.append(('odd',))
+    shards += [('sysexlen', n) for n in SYSEX_LENGTHS]
     run_shards(worker, shards, rep)
     # the empty sequence
     rep.coverage['exhaustive'] = True
@@ -274,7 +332,11 @@ def run():
         'text; the empty input in 4 forms; every sequence of length 4,5'
         + (',6' if thorough else '') + ' over the 14-symbol boundary alphabet '
         + repr([hex(b) for b in BOUNDARY]) + '; out-of-byte ints and '
-        'non-integers at every position of 11 templates; malformed hex. '
+        'non-integers at every position of 11 templates; malformed hex; '
+        'sysex messages with n data bytes for n in 0..41 and around 48, 64, '
+        '128, 256, 1000, 1024, 4099 with one status/out-of-range/non-integer '
+        'item at each position (near both ends and block boundaries for '
+        'n > 130). '
         'Oracle: independent reference acceptor. Non-trivial = first item is '
         'a status byte (>= 0x80) or the case is an ill-typed/odd item; every '
         'enumerated case is distinct by construction')
@@ -303,6 +365,8 @@ def check_case(case):
         except ValueError:
             seq = [0]
         _hex(mido, acc, seq, case['text'])
+    elif case['kind'] == 'sysexlen':
+        _sysex_lengths(mido, acc, case['n'])
     else:
         _odd(mido, acc)
     return [(k, v[0][1]) for k, v in acc.viol.items()]
